@@ -25,6 +25,12 @@ def run(tier, seed):
     from contracts import fn_sequence as Q
     items += [(Q.system_reset('C11'),), (Q.p_restore('C11'),)]
     items += [(D.declaration('C11', *D.GENBASE),), (D.declaration('C11', *D.LINE),)]
+    # how an input value reaches v before the conversion: System.add -> ModelData.add -> NumParam.add (contracts shared with C19 / C13),
+    # and the writers that export the input-base values
+    from contracts import fn_registry as R
+    from contracts import fn_io as F
+    items += [(R.system_add('C11'),), (R.modeldata_add('C11'),), (F.numparam_add('C11'),),
+              (F.writer_refreshes('C11', 'xlsx'), None, F.replay_altered_dump), (F.writer_refreshes('C11', 'json'), None, F.replay_altered_dump)]
     run_contracts(pack, items)
     from contracts.packutil import native_guard
     from contracts import bounded_pu as BPU
